@@ -485,6 +485,69 @@ Definition DecodeEvaluatorSession (c : curve) (data : bytes) : res esession :=
   decodeChoiceBundle c (of_be_s sid) chunk.
 
 (* ====================================================================== *)
+(* op histories over a store of returned byte strings.  A process that keeps
+   several sessions alive calls the encoders several times and holds every
+   returned []byte (checkpoints, messages not yet sent) before decoding any of
+   them.  [HEnc v] appends Encode v to the store, [HDec j] decodes slot j with
+   the decoder of the kind that was stored there.  In this pure model a stored
+   byte string cannot change afterwards; the Go encoders must behave the same
+   (a returned slice must be owned by the caller, not alias a reused buffer). *)
+Inductive value :=
+| VR1 (m : round1) | VR2 (m : round2) | VR3 (m : round3) | VGS (s : gsession) | VES (s : esession).
+Inductive vkind := KR1 | KR2 | KR3 | KGS | KES.
+Definition kind_of (v : value) : vkind :=
+  match v with VR1 _ => KR1 | VR2 _ => KR2 | VR3 _ => KR3 | VGS _ => KGS | VES _ => KES end.
+
+Inductive hop := HEnc (v : value) | HDec (slot : nat).
+
+Section History.
+  Variable decompress : curve -> N -> bool -> option (N * N).
+  Variable c : curve.
+
+  Definition encode_value (v : value) : res bytes :=
+    match v with
+    | VR1 m => EncodeRound1 c m
+    | VR2 m => EncodeRound2 c m
+    | VR3 m => EncodeRound3 m
+    | VGS s => EncodeGarblerSession c s
+    | VES s => EncodeEvaluatorSession c s
+    end.
+
+  Definition decode_kind (k : vkind) (b : bytes) : res value :=
+    match k with
+    | KR1 => m <- DecodeRound1 c b ;; Ok (VR1 m)
+    | KR2 => m <- DecodeRound2 decompress c b ;; Ok (VR2 m)
+    | KR3 => m <- DecodeRound3 b ;; Ok (VR3 m)
+    | KGS => s <- DecodeGarblerSession c b ;; Ok (VGS s)
+    | KES => s <- DecodeEvaluatorSession c b ;; Ok (VES s)
+    end.
+
+  Definition decode_slot (store : list (vkind * res bytes)) (j : nat) : res value :=
+    match nth_error store j with
+    | Some (k, Ok b) => decode_kind k b
+    | Some (_, Err) => Err
+    | Some (_, Panic) => Panic
+    | None => Err
+    end.
+
+  (* one result per HDec op, in order *)
+  Fixpoint run_history (store : list (vkind * res bytes)) (ops : list hop) : list (res value) :=
+    match ops with
+    | [] => []
+    | HEnc v :: t => run_history (store ++ [(kind_of v, encode_value v)]) t
+    | HDec j :: t => decode_slot store j :: run_history store t
+    end.
+
+  (* the store after the ops (what the Enc ops returned) *)
+  Fixpoint history_store (store : list (vkind * res bytes)) (ops : list hop) : list (vkind * res bytes) :=
+    match ops with
+    | [] => store
+    | HEnc v :: t => history_store (store ++ [(kind_of v, encode_value v)]) t
+    | HDec _ :: t => history_store store t
+    end.
+End History.
+
+(* ====================================================================== *)
 (* the four rounds (garbler.go, evaluator.go); cryptographic content opaque *)
 
 Section Rounds.
